@@ -284,9 +284,17 @@ func main() {
 		}
 		return model, res
 	}
+	// quiet runs: several accounts under binding limits. Which account Go's map iteration serves
+	// first is random there, so these runs are not compared with the model (both sides answer "ok");
+	// only the invariant oracles judge them.
+	quiet := false
 	do := func(op string) string {
 		m, res := exec(op)
-		r.Op(m, res)
+		if quiet {
+			r.Op("quiet", "ok")
+		} else {
+			r.Op(m, res)
+		}
 		history = append(history, m)
 		return res
 	}
@@ -304,6 +312,7 @@ func main() {
 	seqs := r.Scale(30, 400)
 	for s := 0; s < seqs; s++ {
 		history = history[:1]
+		quiet = false
 		limit := 100 // limits 1000: nothing binds, every run is compared with the model
 		if R.Chance(35) {
 			limit = 1 // limits 10: ONE account at a time, so the map order cannot matter
@@ -323,10 +332,57 @@ func main() {
 		}
 		live := map[int]sub{}            // ids the pool accepted and that are neither committed nor stale
 		accounts := nKeys
+		quiet = false
 		if limit == 1 {
 			accounts = 1
+			if R.Chance(40) {
+				accounts = R.Range(2, nKeys)
+				quiet = true
+				r.Count("quiet-run")
+			}
 		}
 		lastSnap := ""
+		if limit == 100 && R.Chance(12) {
+			// directed (quiet): the queues exactly at their limits over several accounts, then ONE
+			// post-commit promotion pass that serves all of them
+			quiet = false
+			do("new limit=2") // limits 20
+			quiet = true
+			r.Count("directed-full-promotion-pass")
+			id := 1
+			do("submit id=25 from=4 nonce=0 v=25 kind=kv") // becomes pending and stays: not in the block
+			for a := 0; a < 4; a++ {
+				for n := 0; n <= 5; n++ {
+					do(fmt.Sprintf("submit id=%d from=%d nonce=%d v=%d kind=kv", id, a, n, id))
+					id++
+				}
+			}
+			do("commit ids=1,7,13,19")
+			out := do("snap")
+			var P, W string
+			for _, fld := range strings.Fields(out) {
+				if strings.HasPrefix(fld, "P=") {
+					P = fld[2:]
+				} else if strings.HasPrefix(fld, "W=") {
+					W = fld[2:]
+				}
+			}
+			np, nw := 0, 0
+			if P != "" {
+				np = len(strings.Split(P, ","))
+			}
+			if W != "" {
+				nw = len(strings.Split(W, ","))
+			}
+			if np > 20 || nw > 20 {
+				fail("pool-exceeds-its-size-bounds", fmt.Sprintf("after one post-commit promotion pass over four accounts: pending=%d waiting=%d with limits 20", np, nw), out, "")
+			}
+			if np+nw != 21 {
+				fail("accepted-transaction-dropped-below-capacity", fmt.Sprintf("21 transactions were queued, 4 committed and 20 remain executable or waiting; the pool holds %d", np+nw), out, "")
+			}
+			quiet = false
+			continue
+		}
 		steps := R.Range(10, 45)
 		if limit == 1 {
 			steps = R.Range(40, 90)
